@@ -71,7 +71,7 @@ inline void WalkUM(const UMessage * um, const MMsg & mod, const std::string & wh
             case B_RECT_TYPE:   {URect v; if (UMFindRect(um, fn, k, &v) != CB_NO_ERROR) vf::Fail("%s: UMFindRect", where.c_str()); got = Bytes(&v, 16);} break;
             case B_STRING_TYPE: {const char * s = UMGetString(um, fn, k); if (s == NULL) vf::Fail("%s: UMGetString(%s,%u) returned NULL", where.c_str(), vf::Esc(fn).c_str(), k); got = std::string(s)+std::string(1, '\0');} break;
             case B_MESSAGE_TYPE: {UMessage sub; if (UMFindMessage(um, fn, k, &sub) != CB_NO_ERROR) vf::Fail("%s: UMFindMessage(%s,%u) failed", where.c_str(), vf::Esc(fn).c_str(), k); WalkUM(&sub, *f.subs[k], where+"/"+f.name); got = f.items[k];} break;
-            default: {const void * p = NULL; uint32 nb = 0; if (UMFindData(um, fn, tc, k, &p, &nb) != CB_NO_ERROR) vf::Fail("%s: UMFindData(%s,%u) failed", where.c_str(), vf::Esc(fn).c_str(), k); got = Bytes(p, nb);} break;
+            default: {const void * p = NULL; uint32 nb = 0; if (UMFindData(um, fn, tc, k, &p, &nb) != CB_NO_ERROR) {if (f.items[k].size() == 0) {vf::Count("observation_micro_cannot_return_a_zero_length_item"); continue;} /* observation, not claimed: a zero-length item that ends the field has no byte to point at and UMFindData reports an error (Message::FindData does the same) */ vf::Fail("%s: UMFindData(%s,%u) failed", where.c_str(), vf::Esc(fn).c_str(), k);} got = Bytes(p, nb);} break;
          }
          if (got != f.items[k]) vf::Fail("%s: micro field [%s] item %u is %s, model %s", where.c_str(), vf::Esc(fn).c_str(), k, vf::Hex(got.data(), got.size()).c_str(), vf::Hex(f.items[k].data(), f.items[k].size()).c_str());
       }
